@@ -115,6 +115,11 @@ pub fn tok_to_char(s: &str) -> char {
         "X" => '\u{85}',
         "L" => '\u{2028}',
         "P" => '\u{2029}',
+        // C14 boundary characters: Unicode spaces, a non-space look-alike, a non-ASCII decimal digit
+        "H" => '\u{a0}',
+        "I" => '\u{3000}',
+        "K" => '\u{200b}',
+        "M" => '\u{663}',
         "" => '\u{0}',
         _ => s.chars().next().unwrap(),
     }
@@ -136,6 +141,10 @@ pub fn char_to_tok(c: char) -> String {
         '\u{85}' => "X".to_string(),
         '\u{2028}' => "L".to_string(),
         '\u{2029}' => "P".to_string(),
+        '\u{a0}' => "H".to_string(),
+        '\u{3000}' => "I".to_string(),
+        '\u{200b}' => "K".to_string(),
+        '\u{663}' => "M".to_string(),
         '\u{0}' => "".to_string(),
         _ => c.to_string(),
     }
@@ -301,21 +310,23 @@ pub fn in_class(cls: &str, t: &str) -> bool {
             "a" => 10,
             "f" => 15,
             "z" => 35,
+            "g" => 16,
+            "A" => 10,
             _ => 99,
         }
     };
     let newline = ["N", "R", "V", "F", "X", "L", "P"];
     let iws = ["S", "T"];
-    let letter = ["a", "f", "z"];
+    let letter = ["a", "f", "z", "g", "A"];
     let digitc = ["0", "1", "7", "9"];
     match cls {
-        "ws" => newline.contains(&t) || iws.contains(&t),
+        "ws" => newline.contains(&t) || iws.contains(&t) || t == "H" || t == "I",
         "iws" => iws.contains(&t),
         "nl" => newline.contains(&t),
         "aidstart" => letter.contains(&t) || t == "_",
         "aidcont" => letter.contains(&t) || t == "_" || digitc.contains(&t),
         "uidstart" => letter.contains(&t) || t == "_" || t == "E",
-        "uidcont" => letter.contains(&t) || t == "_" || t == "E" || digitc.contains(&t),
+        "uidcont" => letter.contains(&t) || t == "_" || t == "E" || t == "M" || digitc.contains(&t),
         _ => {
             if let Some(r) = cls.strip_prefix("dig") {
                 dig(t) < r.parse::<u32>().unwrap_or_else(|_| panic!("unknown predicate {cls}"))
